@@ -26,6 +26,45 @@ ASSUMPTIONS = [
 
 
 def run_case(case, ctx):
+    if case.get("enumerate"):
+        return run_enumerated(case, ctx)
+    return run_one(case, ctx)
+
+
+def run_enumerated(case, ctx):
+    """Exhaust the plan space of one small scenario: every single and pair upload failure (over the
+    ids that have to move) and every abort point."""
+    import itertools
+
+    base = dict(case, enumerate=False, fail=[], abort_at=None)
+    with ctx.tmpdir() as d:
+        o = xfer.execute(base, ctx, d, monitor_closure=False)
+    nmove = len(sorted(o.requested_expanded - set(o.dst_before)))
+    nup = len(o.inj.attempts)
+    plans = [{"fail": [i]} for i in range(nmove)]
+    plans += [{"fail": [i, j]} for i, j in itertools.combinations(range(min(nmove, 6)), 2)]
+    plans += [{"abort_at": k} for k in range(1, nup + 1)]
+    total = Result([], False, ["enumerated-scenario"], {"enumerated_plans": 0, "enumerated_scenarios": 1})
+    for plan in plans:
+        sub = dict(base, **plan)
+        r = run_one(sub, ctx)
+        total.counters["enumerated_plans"] += 1
+        for k, v in r.counters.items():
+            total.counters[k] = total.counters.get(k, 0) + v
+        if r.nontrivial:
+            ctx.digests.add(__import__("vd.ctx", fromlist=["digest"]).digest(sub))
+            total.nontrivial = True
+        if r.violations:
+            unknown = ctx.split_known(r.violations)
+            if unknown:
+                from ..ctx import Failure
+
+                ctx.failure = {"case": sub, "violations": [v.to_json() for v in unknown]}
+                raise Failure("; ".join(f"[{v.sig}] {v.msg}" for v in unknown))
+    return total
+
+
+def run_one(case, ctx):
     with ctx.tmpdir() as d:
         o = xfer.execute(case, ctx, d)
         viols = []
@@ -88,7 +127,13 @@ def run_case(case, ctx):
 
 
 def run(ctx):
-    ctx.run_given(xfer.cases(closed_only=True, allow_verify=False), run_case, ctx.n(quick=150, thorough=2500))
+    ok = ctx.run_given(xfer.cases(closed_only=True, allow_verify=False), run_case, ctx.n(quick=150, thorough=2500))
+    if ok and not ctx.over_budget():
+        # enumerated arm: complete plan space (single + pair failures, every abort point) per scenario
+        from hypothesis import strategies as st
+
+        enum = xfer.cases(closed_only=True, allow_verify=False).map(lambda c: dict(c, enumerate=True, jobs=1))
+        ctx.run_given(enum, run_case, ctx.n(quick=8, thorough=150))
 
 
 def replay(case, ctx):
